@@ -53,6 +53,8 @@ func c14Elems() []mvElem {
 		mvElem{src: "poryswitch(V) { X: p * 2 _: q }", steps: []string{"p", "p"}},
 		mvElem{src: "poryswitch(V) { Y: p _: q * 2 }", steps: []string{"q", "q"}},
 		mvElem{src: "poryswitch(V) { _: q X: step_end }", steps: []string{"step_end"}},
+		mvElem{src: "poryswitch(V) { Y: step_end X: p * 2 }", steps: []string{"p", "p"}},
+		mvElem{src: "poryswitch(V) { Y: poryswitch(W) { 1: step_end } _ { q * 3 } }", steps: []string{"q", "q", "q"}, brace: true},
 		mvElem{src: "poryswitch(V) { Y { p p } X { q, r * 2 s } }", steps: []string{"q", "r", "r", "s"}, brace: true},
 		mvElem{src: "poryswitch(V) { X { } _ { q } }", steps: []string{}, brace: true},
 		mvElem{src: "poryswitch(V) { X { t poryswitch(W) { 1: u _: w } } _: q }", steps: []string{"t", "u"}, brace: true},
